@@ -659,14 +659,14 @@ func checkRelayBidCache(p *core.Prog, r *core.Report, ds *core.Describer) {
 	// passes the store of the slot/parent/proposer entry (an earlier winner kept after a later auction without a
 	// winner would still be served to the beacon node)
 	if cb := p.Func(relayRel, "Service", "cacheBid"); cb != nil {
-		var stores []ssa.Instruction
-		core.EachInstr(cb, func(in ssa.Instruction) {
+		stores := effectSites(cb, func(in ssa.Instruction) bool {
 			if mu, ok := in.(*ssa.MapUpdate); ok {
 				if pt, ok := mu.Value.Type().(*types.Pointer); ok && strings.HasSuffix(pt.Elem().String(), "VersionedSignedBuilderBid") {
-					stores = append(stores, in)
+					return true
 				}
 			}
-		})
+			return false
+		}, 2)
 		if len(stores) == 0 {
 			r.Violate("C09.f", "blockrelay|cacheBid|always-stores", p.Pos(cb.Pos()), "cacheBid never stores a bid entry")
 		} else {
